@@ -192,6 +192,90 @@ theorem gather_chain_axiswise (G D : Comp → Bool)
         refine ⟨a :: mid0', by rw [hr1]; simp, ?_⟩
         exact axiswise_cons_of_ok _ c cs d ds a mid0' (by simp [withGather, hg', ha]) hfull
 
+/-- **Gather chain run in ascending order** (eager mode's 1-D Gathers): when every gathered
+component keeps its axis (`numpyAxis` answers with a `pick`: 1-D indices), the order does not matter —
+a chain run from the first selected component to the last also changes exactly the selected
+positions into `numpyAxis`. -/
+theorem gather_chain_axiswise_fwd (G D : Comp → Bool)
+    (preF : Comp → List Nat → Except Err AxisMap) (axisOf : Nat → Nat)
+    (hG : ∀ c srcs, G c = true → preF c srcs = .ok (.pick srcs))
+    (hGop : ∀ c a, G c = true → (gatherOp a c).isSome = true)
+    (hGpick : ∀ c srcs a, G c = true → numpyAxis c srcs = .ok a → a.isPick = true)
+    (hD : ∀ c srcs a, preF c srcs = .ok a → a.isPick = !D c) :
+    ∀ (cs : List Comp) (ds : List Nat) (n : Nat) (pre mid r : View),
+      (∀ i c, cs[i]? = some c → G c = true →
+          axisOf (n + i) = (pre.filter AxisMap.isPick).length
+                            + ((cs.take i).filter (fun c => !D c)).length) →
+      axiswise preF cs ds = .ok mid →
+      runPlan (((cs.zipIdx n).filter (fun p => G p.1)).filterMap
+          (fun p => gatherOp (axisOf p.2) p.1)) (pre ++ mid) = .ok r →
+      ∃ mid', r = pre ++ mid' ∧ axiswise (withGather G preF) cs ds = .ok mid' := by
+  intro cs
+  induction cs with
+  | nil =>
+    intro ds n pre mid r _ hax hrun
+    simp only [List.zipIdx_nil, List.filter_nil, List.filterMap_nil, runPlan_nil,
+      Except.ok.injEq] at hrun
+    refine ⟨mid, hrun.symm, ?_⟩
+    simpa [axiswise] using hax
+  | cons c cs ih =>
+    intro ds n pre mid r hA hax hrun
+    cases ds with
+    | nil => simp [axiswise] at hax
+    | cons d ds =>
+      obtain ⟨a, mid0, ha, hmid0, rfl⟩ := axiswise_cons_ok preF c cs d ds mid hax
+      have hpick : a.isPick = !D c := hD c _ a ha
+      -- the axis condition for the tail, for any settled axis `b` of the same kind as `a`
+      have hA' : ∀ (b : AxisMap), b.isPick = a.isPick → ∀ i c', cs[i]? = some c' → G c' = true →
+          axisOf (n + 1 + i) = ((pre ++ [b]).filter AxisMap.isPick).length
+                                + ((cs.take i).filter (fun c => !D c)).length := by
+        intro b hb i c' hi hg
+        have := hA (i + 1) c' (by simpa using hi) hg
+        rw [show n + (i + 1) = n + 1 + i by omega] at this
+        rw [this]
+        simp only [List.take_succ_cons, List.filter_cons, List.filter_append, List.length_append,
+          List.filter_nil, hb, hpick]
+        cases D c <;> simp <;> omega
+      simp only [List.zipIdx_cons] at hrun
+      by_cases hg : G c = true
+      · have hfil : ((c, n) :: cs.zipIdx (n + 1)).filter (fun p => G p.1)
+            = (c, n) :: (cs.zipIdx (n + 1)).filter (fun p => G p.1) := by
+          simp [hg]
+        obtain ⟨op, hop⟩ := Option.isSome_iff_exists.mp (hGop c (axisOf n) hg)
+        have ha' : a = .pick (List.range d) := by
+          have := hG c (List.range d) hg
+          rw [this] at ha; cases ha; rfl
+        subst ha'
+        rw [hfil, List.filterMap_cons, hop] at hrun
+        simp only at hrun
+        rw [show ∀ (l : Plan), op :: l = [op] ++ l from fun _ => rfl, runPlan_append,
+          runPlan_singleton, gatherOp_run _ _ _ hop] at hrun
+        have hax0 : axisOf n = (pre.filter AxisMap.isPick).length := by
+          have := hA 0 c (by simp) hg
+          simpa using this
+        rw [hax0, modifyPick_at] at hrun
+        cases hn : numpyAxis c (List.range d) with
+        | error e => rw [hn] at hrun; cases hrun
+        | ok a' =>
+          rw [hn] at hrun
+          simp only at hrun
+          have hp' : a'.isPick = true := hGpick c _ a' hg hn
+          have hsplit : pre ++ a' :: mid0 = (pre ++ [a']) ++ mid0 := by simp
+          rw [hsplit] at hrun
+          obtain ⟨mid0', hr1, hfull⟩ :=
+            ih ds (n + 1) (pre ++ [a']) mid0 r (hA' a' (by rw [hp']; rfl)) hmid0 hrun
+          refine ⟨a' :: mid0', by rw [hr1]; simp, ?_⟩
+          exact axiswise_cons_of_ok _ c cs d ds a' mid0' (by simp [withGather, hg, hn]) hfull
+      · have hg' : G c = false := by simpa using hg
+        have hfil : ((c, n) :: cs.zipIdx (n + 1)).filter (fun p => G p.1)
+            = (cs.zipIdx (n + 1)).filter (fun p => G p.1) := by
+          simp [hg']
+        have hsplit : pre ++ a :: mid0 = (pre ++ [a]) ++ mid0 := by simp
+        rw [hfil, hsplit] at hrun
+        obtain ⟨mid0', hr1, hfull⟩ := ih ds (n + 1) (pre ++ [a]) mid0 r (hA' a rfl) hmid0 hrun
+        refine ⟨a :: mid0', by rw [hr1]; simp, ?_⟩
+        exact axiswise_cons_of_ok _ c cs d ds a mid0' (by simp [withGather, hg', ha]) hfull
+
 /-! ### Counting: the axis attribute is the number of kept axes below -/
 
 theorem filter_length_add {α} (F : α → Bool) (l : List α) :
@@ -795,20 +879,32 @@ theorem zipIdx_filter_length (F : Comp → Bool) :
     simp only [List.zipIdx_cons, List.filter_cons]
     cases F c <;> simp [ih (n + 1)]
 
-/-- The 1-D Gathers at the end of `Tensor.__getitem__` (at most one of them). -/
+theorem numpyAxis_vec_isPick (c : Comp) (srcs : List Nat) (a : AxisMap) (hv : c.isVec = true)
+    (h : numpyAxis c srcs = .ok a) : a.isPick = true := by
+  cases c with
+  | tVec vs =>
+    simp only [numpyAxis] at h
+    split at h
+    · simp only [Except.ok.injEq] at h; subst h; rfl
+    · cases h
+  | full => simp [Comp.isVec] at hv
+  | int i => simp [Comp.isVec] at hv
+  | tScalar i => simp [Comp.isVec] at hv
+  | slice lo hi st => simp [Comp.isVec] at hv
+
+/-- The 1-D Gathers at the end of `Tensor.__getitem__` — any number of them. -/
 theorem eager_vec_stage (comps : List Comp) (shape : List Nat) (v1 r : View)
     (preF : Comp → List Nat → Except Err AxisMap)
-    (hvec : (eVecsOf comps).length ≤ 1)
     (hG : ∀ c srcs, c.isVec = true → preF c srcs = .ok (.pick srcs))
     (hD : ∀ c srcs a, preF c srcs = .ok a → a.isPick = !c.isEagerScalar)
     (hpre : axiswise preF comps shape = .ok v1)
     (hrun : runPlan ((eVecsOf comps).filterMap
         (fun p => gatherOp (gatherAxis ((eScalarsOf comps).map (fun p => p.2)) p.2) p.1)) v1 = .ok r) :
     axiswise (withGather Comp.isVec preF) comps shape = .ok r := by
-  rw [← reverse_of_length_le_one _ hvec] at hrun
-  obtain ⟨mid', hr, hfull⟩ := gather_chain_axiswise Comp.isVec Comp.isEagerScalar preF
+  obtain ⟨mid', hr, hfull⟩ := gather_chain_axiswise_fwd Comp.isVec Comp.isEagerScalar preF
     (gatherAxis ((eScalarsOf comps).map (fun p => p.2))) hG
     (by intro c a hg; cases c <;> first | rfl | simp [Comp.isVec] at hg)
+    (fun c srcs a hg hn => numpyAxis_vec_isPick c srcs a hg hn)
     hD comps shape 0 [] v1 r
     (by
       intro i c hi _
@@ -852,19 +948,16 @@ theorem filterMap_gatherOp_scalars (l : List (Comp × Nat)) (hl : ∀ p ∈ l, p
     | int i => simp [gatherOp, gatherAxis_nil, Comp.scalarVal]
     | tScalar i => simp [gatherOp, gatherAxis_nil, Comp.scalarVal]
 
-/-- **Eager mode, whole plans.**  If `Tensor.__getitem__` returns a tensor (at most one 1-D index),
+/-- **Eager mode, whole plans.**  If `Tensor.__getitem__` returns a tensor (any number of 1-D indices),
 the view is built axis by axis, and every axis is either NumPy's result or the result of the
 Slice(+squeeze) treatment of that component. -/
 theorem eager_index_axiswise (comps : List Comp) (shape : List Nat) (r : View)
-    (hvec : (comps.filter Comp.isVec).length ≤ 1)
     (h : eagerIndex comps shape = .ok r) :
     comps.length ≤ shape.length ∧
     ∃ F : Comp → List Nat → Except Err AxisMap, axiswise F comps shape = .ok r ∧
       ∀ (j : Nat) (c : Comp) (d : Nat) (a : AxisMap), comps[j]? = some c → shape[j]? = some d →
         F c (List.range d) = .ok a →
         (numpyAxis c (List.range d) = .ok a ∨ eagerAxisSlicePath c (List.range d) = .ok a) := by
-  have hvec' : (eVecsOf comps).length ≤ 1 := by
-    rw [eVecsOf, zipIdx_filter_length]; exact hvec
   unfold eagerIndex planEager at h
   by_cases hlen : comps.length > shape.length
   · rw [if_pos hlen] at h; simp [bind, Except.bind] at h
@@ -885,7 +978,7 @@ theorem eager_index_axiswise (comps : List Comp) (shape : List Nat) (r : View)
           (numpyAxis c (List.range d) = .ok a ∨ eagerAxisSlicePath c (List.range d) = .ok a) := by
     intro v1 hv1 hsl hrun
     refine ⟨withGather Comp.isVec (withGather Comp.isEagerScalar pickF), ?_, ?_⟩
-    · refine eager_vec_stage comps shape v1 r _ hvec' ?_ ?_ hv1 hrun
+    · refine eager_vec_stage comps shape v1 r _ ?_ ?_ hv1 hrun
       · intro c srcs hv
         have : c.isEagerScalar = false := by cases c <;> first | rfl | simp [Comp.isVec] at hv
         simp [withGather, this, pickF]
@@ -995,7 +1088,7 @@ theorem eager_index_axiswise (comps : List Comp) (shape : List Nat) (r : View)
         rw [hv1] at h
         have hpre := eager_slice_stage comps shape v1 hlen' (by simpa using hv1)
         refine ⟨withGather Comp.isVec eagerPre, ?_, ?_⟩
-        · exact eager_vec_stage comps shape v1 r eagerPre hvec'
+        · exact eager_vec_stage comps shape v1 r eagerPre
             (by intro c srcs hv; cases c <;> first | rfl | simp [Comp.isVec] at hv)
             eagerPre_isPick hpre h
         · intro j c d a _ _ ha
